@@ -390,8 +390,9 @@ func (p *Process) stopProcess(cancelReadinessFuncs bool) error {
 	if !p.isRunning() {
 		log.Debug().Msgf("process %s is in state %s not shutting down", p.getName(), p.getStatusName())
 		// prevent pending process from running
-		if p.isOneOfStates(types.ProcessStatePending) {
-			p.onProcessEnd(types.ProcessStateTerminating)
+		if p.compareAndSetState(types.ProcessStatePending, types.ProcessStateTerminating) {
+			// release whoever waits for this process; its own goroutine records the final state
+			p.finish("")
 		}
 		return nil
 	}
@@ -479,6 +480,14 @@ func (p *Process) onProcessStart() {
 }
 
 func (p *Process) onProcessEnd(state string) {
+	p.finish(state)
+}
+
+// finish releases everything that waits for the process to end. With a non-empty state
+// it records it as the final one; a stop of a pending process passes "" because the
+// process's own goroutine will do that (setting it here could overwrite the final state
+// the goroutine has recorded meanwhile).
+func (p *Process) finish(state string) {
 	if isStringDefined(p.procConf.LogLocation) {
 		p.logger.Close()
 	}
@@ -492,7 +501,9 @@ func (p *Process) onProcessEnd(state string) {
 	if p.readyProber != nil {
 		p.readyCancelFn()
 	}
-	p.setState(state)
+	if state != "" {
+		p.setState(state)
+	}
 	p.updateProcState()
 	// release processes waiting for this one to print its ready log line or to start:
 	// it has ended and will not do either anymore
@@ -696,6 +707,18 @@ func (p *Process) isOneOfStates(states ...string) bool {
 		}
 	}
 	return false
+}
+
+// compareAndSetState changes the status to 'to' only if it currently is 'from'
+func (p *Process) compareAndSetState(from, to string) bool {
+	p.stateMtx.Lock()
+	defer p.stateMtx.Unlock()
+	if p.procState.Status != from {
+		return false
+	}
+	p.procState.Status = to
+	p.onStateChange(to)
+	return true
 }
 
 func (p *Process) setState(state string) {
